@@ -337,19 +337,40 @@ type Report struct {
 	TracerReal    int
 	TracerNil     int
 	TracerEither  int
-	TracerWrites  int // adapter calls carrying collected lines
-	NilFLines     int // nil-tracer lines logged with a Printf-style method
-	NilFQuieter   int // … that only the calling package's (higher) level suppresses
-	NilFLouder    int // … that only the calling package's (lower) level enables
-	RealFLines    int // lines collected by a real tracer with a Printf-style method
-	EchoAdjacent  int // adjacent adapter calls (plain, trace) or (trace, plain) with the same text, severity, file and line
-	BeforeShutdwn int // adapter calls before Shutdown was called
+	TracerWrites  int  // adapter calls carrying collected lines
+	NilFLines     int  // nil-tracer lines logged with a Printf-style method
+	NilFQuieter   int  // … that only the calling package's (higher) level suppresses
+	NilFLouder    int  // … that only the calling package's (lower) level enables
+	RealFLines    int  // lines collected by a real tracer with a Printf-style method
+	LastInFinal   bool // pace 4: the last log call fell into the final adapter call of a writer batch (statistics)
+	EchoAdjacent  int  // adjacent adapter calls (plain, trace) or (trace, plain) with the same text, severity, file and line
+	BeforeShutdwn int  // adapter calls before Shutdown was called
 }
 
 func (r *Report) violate(format string, a ...any) {
 	if len(r.Violations) < 12 {
 		r.Violations = append(r.Violations, fmt.Sprintf(format, a...))
 	}
+}
+
+// SilenceClauseApplies: free-running writer, no stop/resume, the long silence before Shutdown.
+func (s *Scenario) SilenceClauseApplies() bool {
+	return s.Sched == "free" && s.Stutter == nil && s.PreShutdownSleepUs >= SilenceUs
+}
+
+// lastLineInFinalWrite (statistics only): the last log call of the scenario returned while the adapter
+// was busy with a call that turned out to be the last one of its writer batch (the next adapter call, if
+// any, started at least 5 ms — a writer pause — later).
+func lastLineInFinalWrite(res *Result) bool {
+	if res.LastLogUs == 0 || len(res.WriteTimes) == 0 {
+		return false
+	}
+	for i, w := range res.WriteTimes {
+		if res.LastLogUs >= w[0] && res.LastLogUs <= w[1] {
+			return i+1 == len(res.WriteTimes) || res.WriteTimes[i+1][0]-w[1] >= 5000
+		}
+	}
+	return false
 }
 
 // Check is the oracle: a pure function of the scenario and of what the child observed.
@@ -389,10 +410,18 @@ func Check(s *Scenario, res *Result) *Report {
 	// Bounded liveness of the free-running writer: after SilenceUs without any log call everything that was logged
 	// has been handed to the adapter; a line that only comes out because Shutdown drains the buffer was stuck (a lost
 	// wake-up of the writer). The bound is two hundred times the writer's own 10 ms pause.
-	if s.Sched == "free" && s.Stutter == nil && s.PreShutdownSleepUs >= SilenceUs && res.AtShutdownCall != len(res.Writes) {
+	// Soundness: on a correct writer every log call either finds logsWaitingFlag clear (and sends the wake-up) or finds
+	// it set, which means a wake-up is pending or the writer is between taking it and its drain loop; all log calls have
+	// returned before the silence starts, so the buffer is empty after at most two writer cycles plus the adapter's own
+	// time. The adapter's time is bounded by construction (paces 0-3: < 10 ms in total; pace 4: Validate bounds
+	// calls*PaceUs by SilenceUs/4), the child counts the silence in 200 timer wake-ups of its own process, and
+	// scheduled writers (which legally keep lines until triggered/overflow/Shutdown) and stutter runs are excluded.
+	if s.SilenceClauseApplies() && res.AtShutdownCall != len(res.Writes) {
 		rep.violate("free-running writer: %d of %d adapter calls happened only during Shutdown although nothing had been logged for %d ms before it (first such line: %q): the line stayed in the buffer until the shutdown drain",
 			len(res.Writes)-res.AtShutdownCall, len(res.Writes), s.PreShutdownSleepUs/1000, res.Writes[res.AtShutdownCall].Text)
 	}
+
+	rep.LastInFinal = lastLineInFinalWrite(res)
 
 	exps := expect(s)
 	for _, e := range exps {
